@@ -713,7 +713,7 @@ impl Quil for Expression {
                 expression,
             }) => {
                 write!(f, "{operator}")?;
-                format_inner_expression(f, fall_back_to_debug, expression)
+                format_prefix_operand(f, fall_back_to_debug, expression)
             }
             Variable(identifier) => write!(f, "%{identifier}").map_err(Into::into),
         }
@@ -740,7 +740,40 @@ fn format_inner_expression(
             write!(f, ")")?;
             Ok(())
         }
+        // A complex literal with both parts non-zero is written as a sum or difference, so as an
+        // operand it needs the same parentheses as any other infix expression.
+        Expression::Number(value) if value.re != 0f64 && value.im != 0f64 => {
+            write!(f, "(")?;
+            expression.write(f, fall_back_to_debug)?;
+            write!(f, ")")?;
+            Ok(())
+        }
         _ => expression.write(f, fall_back_to_debug),
+    }
+}
+
+/// Write the operand of a prefix operator.  The parser accepts only a single prefix operator in
+/// front of an atom, so an operand whose own text starts with a sign (a nested prefix expression
+/// or a negative literal) has to be parenthesized.
+fn format_prefix_operand(
+    f: &mut impl std::fmt::Write,
+    fall_back_to_debug: bool,
+    expression: &Expression,
+) -> crate::quil::ToQuilResult<()> {
+    let starts_with_sign = match expression {
+        Expression::Prefix(_) => true,
+        Expression::Number(value) => {
+            value.re.is_sign_negative() || (value.re == 0f64 && value.im.is_sign_negative())
+        }
+        _ => false,
+    };
+    if starts_with_sign {
+        write!(f, "(")?;
+        expression.write(f, fall_back_to_debug)?;
+        write!(f, ")")?;
+        Ok(())
+    } else {
+        format_inner_expression(f, fall_back_to_debug, expression)
     }
 }
 
